@@ -162,7 +162,7 @@ def u_prox_row_radial(h, name, T=2, e=None, gamma=None):
     Pm = P()
     al = h.real('alpha')
     s = h.real('step')
-    g = h.real('gamma') if gamma is None else gamma
+    g = h.real('gamma') if gamma is None else h.constant(gamma)
     h.assume(al > 0, s > 0)
     if name == 'BlockMCPenalty':
         h.assume(g > s)
